@@ -412,6 +412,11 @@ COMBINATORS = {
     "std::option::Option::or_else": ("std::option::Option", None, "payload", "closure-whole"),
     "std::result::Result::or_else": ("std::result::Result", "Err", "raw", "Ok"),
     "std::result::Result::unwrap_or_else": ("std::result::Result", "Err", "raw", "payload:Ok"),
+    # x.is_some_and(p) = match x { Some(v) => p(v), None => false } and its relatives
+    "std::option::Option::is_some_and": ("std::option::Option", "Some", "raw", "const:false"),
+    "std::option::Option::is_none_or": ("std::option::Option", "Some", "raw", "const:true"),
+    "std::result::Result::is_ok_and": ("std::result::Result", "Ok", "raw", "const:false"),
+    "std::result::Result::is_err_and": ("std::result::Result", "Err", "raw", "const:false"),
 }
 VARIANTS = {"std::option::Option": [[0, "None"], [1, "Some"]], "std::result::Result": [[0, "Ok"], [1, "Err"]]}
 
@@ -568,6 +573,10 @@ class Desugarer:
                 return False
             dcl_local = args[1]["place"]["l"]
             args = [args[0], args[2]]
+        if miss.startswith("const:"):
+            if len(args) != 2:
+                return False
+            default_op = {"k": "const", "ty": "bool", "ck": "bool", "int": 1 if miss == "const:true" else 0, "text": miss[6:]}
         if miss == "default":
             # x.map_or(default, closure)
             if len(args) != 3:
